@@ -295,7 +295,21 @@ def _line_chart_labels(prs, s, rnd):
 
 
 CT = XL_CHART_TYPE
+def _legend_dragged(prs, s, rnd):
+    """A chart whose legend was dragged in PowerPoint: c:layout/c:manualLayout in EDGE mode with explicit x/y/w/h."""
+    from pptx.oxml import parse_xml
+
+    _chart(CT.BAR_CLUSTERED)(prs, s, rnd)
+    legend = s.shapes[0].chart._chartSpace.chart.legend
+    for lay in legend.findall("{http://schemas.openxmlformats.org/drawingml/2006/chart}layout"):
+        legend.remove(lay)
+    legend._insert_layout(parse_xml(
+        '<c:layout xmlns:c="http://schemas.openxmlformats.org/drawingml/2006/chart"><c:manualLayout><c:xMode val="edge"/><c:yMode val="edge"/>'
+        '<c:x val="0.7"/><c:y val="0.1"/><c:w val="0.2"/><c:h val="0.3"/></c:manualLayout></c:layout>'))
+
+
 FIXTURES = {
+    "legend_dragged": (6, _legend_dragged),
     "autoshape": (6, _shape()),
     "arrow": (6, _shape(MSO_SHAPE.LEFT_RIGHT_ARROW)),
     "textbox": (6, _textbox),
@@ -492,6 +506,7 @@ ROWS = [
     R("Adjustment.effective_value[1]", "arrow", SP, fracs(-1e6, 1e6, False, span=(-2.0, 3.0)), "frac", group="adj", cls="fraction",
       get=lambda sp: sp.adjustments[1], set=lambda sp, v: sp.adjustments.__setitem__(1, v)),
     R("Legend.horz_offset", "bar_chart", CH + ".legend", fracs(-1.0, 1.0, True, q=1e-7), "float", group="legend", corpus="legend", cls="fraction"),
+    R("Legend.horz_offset@dragged", "legend_dragged", CH + ".legend", fracs(-1.0, 1.0, True, q=1e-7), "float", cls="fraction"),
     R("_BaseAxis.maximum_scale", "bar_chart", CH + ".value_axis", doubles(), "float", none=None, group="vax", corpus="value_axis", cls="double"),
     R("_BaseAxis.minimum_scale", "bar_chart", CH + ".value_axis", doubles(), "float", none=None, group="vax", corpus="value_axis", cls="double"),
     R("_BaseAxis.maximum_scale@xy", "xy_chart", CH + ".category_axis", doubles(), "float", none=None, group="xax", cls="double"),
@@ -583,6 +598,7 @@ ROWS = [
     # ---- colours --------------------------------------------------------------------------------------------
     R("ColorFormat.rgb", "solid", SP + ".fill.fore_color", colours, covers=[("_SRgbColor", "rgb")], get=_safe_color_get("rgb"), group="color", couples=_rgb_couple, cls="colour"),
     R("ColorFormat.rgb@font", "textbox", FONT + ".color", colours, get=_safe_color_get("rgb"), cls="colour", prime=NOPRIME),
+    R("ColorFormat.rgb@line", "autoshape", SP + ".line.color", colours, get=_safe_color_get("rgb"), cls="colour", prime=NOPRIME),
     # ---- object-valued --------------------------------------------------------------------------------------
     R("ActionSetting.target_slide", "autoshape", SP + ".click_action", slide_refs, none=None, get=_get_target, set=_set_target, group="jump", corpus="clickaction", cls="object"),
 ]
